@@ -8,7 +8,14 @@ from . import c08_lib as L
 from . import c08 as C8
 from .sx import Sym, d_float, d_opt, d_str, e_float, some
 
-RULE = ('deterministic slices first: changes to and from the falsy identities 0 and empty string; real os.fork() after which the '
+RULE = ('deterministic slices first: TWO (or three) LIVE VALUE OBJECTS FOR ONE SERIES - the history keeps a handle on a labels() child '
+        '(or an unlabelled metric object), the label set is removed / the metric cleared / the metric declared again and the '
+        'series re-created; both objects are updated before and after identity changes in both orders, each also left '
+        'un-updated before the change, for every metric type and four gauge modes (model: the closure keeps every value '
+        'object ever created, New does not require a fresh key; direct oracle per file: every creation / update under identity '
+        'p has its cell in p\'s own file whichever object it went through, no other identity\'s file changes, set stores its '
+        'value, an increment through an object with a current cache continues from what p\'s file held), 20% of the random '
+        'histories are of that kind; then changes to and from the falsy identities 0 and empty string; real os.fork() after which the '
         'PARENT adds keys to the shared per-type file before the child performs its first operation; two threads issuing their '
         'first inc concurrently after an identity change with the first pre-empted inside the re-binding; then a systematic slice: SetPid immediately followed by ONE operation (set/inc/dec/observe/get/new child/new metric) for every '
         'gauge mode and metric type, labelled and unlabelled, warm and cold; identities numeric and NON-numeric (hex ids ending '
@@ -26,8 +33,10 @@ TRUSTED = ['float + == of the platform (IEEE binary64)',
            '(counter: _total; summary: _count,_sum; histogram: _sum, buckets; gauge: one) and observe() increments them as '
            'written there; the per-step directory comparison does not depend on that order',
            'simulated identities (process_identifier reads a box) for the correspondence; real os.fork() (inherited mappings, os.getpid identities) in 10% of the random cases (30% in the thorough tier), direct oracle only']
-ASSUMPTIONS = ['no two live value objects of one closure share a (file prefix, key): metrics are declared once per interpreter '
-               'and children are obtained through labels()',
+ASSUMPTIONS = ['the per-cell fold / conservation theorems (C09_sum_conserved*, C09_continues_from_file, C09_get_reads_own_file) and the '
+               'totals of the direct oracle assume that no two live value objects of one closure share a (file prefix, key) '
+               '(wf_hist; false otherwise even without identity changes: C09_sum_needs_wf_refuted, the remove/clear finding of '
+               'C12); the theorems *_any_history, the correspondence and the per-file direct oracle do NOT assume it',
                'process_identifier returns distinct values for simultaneously running processes (the docstring contract)']
 import os as _os
 TIME_BUDGET = {'quick': int(_os.environ.get('C08_BUDGET', '60')), 'thorough': int(_os.environ.get('C08_TBUDGET', '900'))}
@@ -185,8 +194,138 @@ def fork_late_slice():
             yield {'metrics': [d, d2], 'ops': ops, 'fork': True}
 
 
+
+# ---------- two live value objects for ONE series ----------
+def _upd(d, lv, v, t, via=None):
+    """one update of metric d: through the metric (labels(*lv)) or through the kept handle `via`"""
+    k = d['kind']
+    mr = k == 'gauge' and d['mode'] in ('mostrecent', 'livemostrecent')
+    if via is None:
+        return (['inc', 0, d['id'], lv, v] if k == 'counter' else ['obs', 0, d['id'], lv, v] if k in ('summary', 'histogram')
+                else ['set', 0, d['id'], lv, v, t] if mr or v != 0.25 else ['inc', 0, d['id'], lv, v])
+    return (['hinc', 0, via, v] if k == 'counter' else ['hobs', 0, via, v] if k in ('summary', 'histogram')
+            else ['hset', 0, via, v, t] if mr or v != 0.25 else ['hinc', 0, via, v])
+
+
+def dup_slice(rng):
+    """The application keeps a reference to a labels() child (or to an unlabelled metric object); the label set is removed
+    / the metric cleared / the metric declared again, and the series is created again: TWO live value objects for one
+    series.  Both are updated before and after identity changes, in both orders; the re-created one is also left
+    un-updated before the change, and the older one too; three generations."""
+    decls = [dict(kind='counter', name='c', help='cc'), dict(kind='summary', name='s', help='ss'),
+             dict(kind='histogram', name='h', help='hh', buckets=[1.0, 2.5])]
+    decls += [dict(kind='gauge', name='g_' + m, help='gauge ' + m, mode=m) for m in ('all', 'livesum', 'max', 'mostrecent')]
+    which = {'counter': '', 'gauge': '', 'summary': 'sum', 'histogram': 'sum'}
+    n = 0
+    for d0 in decls:
+        for how in ('remove', 'clear', 'renew', 'renew_unlabelled'):
+            ln = [] if how == 'renew_unlabelled' else ['path']
+            d = dict(d0, id=0, labelnames=ln)
+            lv = ['/'] if ln else []
+            again = {'remove': [['remove', 0, 0, lv]], 'clear': [['clear', 0, 0]]}.get(how, [['renew', 0, 0]])
+            for before in ('old,new', 'new,old', 'old', 'new', ''):
+                for after in ('old,new', 'new,old', 'old', 'new'):
+                    n += 1
+                    if n % 2 and (before, after) not in (('old', 'old'), ('', 'old'), ('old,new', 'new,old')):
+                        continue            # half of the remaining combinations per declaration: the slice stays small
+                    p0, p1 = rng.sample(PIDS, 2)
+                    t = [1000.0]
+
+                    def both(order, vals):
+                        out = []
+                        for who, v in zip([x for x in order.split(',') if x], vals):
+                            t[0] += 1.0
+                            out.append(_upd(d, lv, v, t[0], via=0 if who == 'old' else None))
+                        return out
+                    ops = [['spawn', 0, p0], ['new', 0, 0], ['keep', 0, 0, lv, 0], _upd(d, lv, 1.0, 1000.0, via=0)]
+                    ops += again + [['child', 0, 0, lv]] + both(before, [2.0, 0.5])
+                    ops += [['setpid', 0, p1]] + both(after, [3.0, 0.25]) + [['hget', 0, 0, which[d['kind']]], ['collect']]
+                    ops += [['setpid', 0, p0]] + both(after, [7.5, 0.25]) + [['get', 0, 0, lv, which[d['kind']]], ['collect']]
+                    yield {'metrics': [d], 'ops': ops, 'snap': True, 'dup': True}
+        # three generations of one labelled series, the identity changes, each generation is updated (every order of two)
+        d = dict(d0, id=0, labelnames=['path'])
+        lv = ['/']
+        for order in ((0, 1, None), (None, 1, 0), (1, None, 0)):
+            p0, p1 = rng.sample(PIDS, 2)
+            ops = [['spawn', 0, p0], ['new', 0, 0], ['keep', 0, 0, lv, 0], _upd(d, lv, 1.0, 1000.0, via=0), ['remove', 0, 0, lv],
+                   ['keep', 0, 0, lv, 1], _upd(d, lv, 2.0, 1001.0, via=1), ['clear', 0, 0], _upd(d, lv, 0.5, 1002.0),
+                   ['setpid', 0, p1]]
+            ops += [_upd(d, lv, 3.0 + i, 1003.0 + i, via=h) for i, h in enumerate(order)] + [['collect']]
+            yield {'metrics': [d], 'ops': ops, 'snap': True, 'dup': True}
+
+
+def dup_history(rng):
+    """random histories over a few metrics with kept handles, remove / clear / re-declaration, updates through the
+    metric and through every kept handle, identity changes anywhere"""
+    cat = []
+    for k in rng.sample(['counter', 'counter', 'summary', 'histogram', 'gauge', 'gauge', 'gauge'], rng.randrange(2, 4)):
+        d = dict(id=len(cat), kind=k, name='%s%d' % (k[0], len(cat)), help=k, labelnames=rng.choice([[], ['a'], ['a'], ['a', 'b']]))
+        if k == 'gauge':
+            d['mode'] = rng.choice(L.MODES)
+        if k == 'histogram':
+            d['buckets'] = rng.choice([[1.0, 2.5], [0.5, 1.0, float('inf')]])
+        cat.append(d)
+    ops = [['spawn', 0, rng.choice(PIDS)]] + [['new', 0, d['id']] for d in cat]
+    handles = []            # handle -> metric id
+    clock = 1000.0
+    which = {'counter': [''], 'gauge': [''], 'summary': ['sum', 'count'], 'histogram': ['sum', 0]}
+    for _ in range(rng.randrange(8, 40)):
+        r = rng.random()
+        d = rng.choice(cat)
+        lv = [rng.choice(['x', 'y']) for _ in d['labelnames']]
+        clock += rng.choice([0.0, 1.0, 0.5])
+        v = rng.choice(C8.EXACT if d['kind'] == 'counter' else C8.GVALS)
+        if r < 0.14:
+            ops.append(['setpid', 0, rng.choice(PIDS[:6])])
+        elif r < 0.24:
+            ops.append(['keep', 0, d['id'], lv, len(handles)])
+            handles.append(d['id'])
+        elif r < 0.32 and d['labelnames']:
+            ops.append(['remove', 0, d['id'], lv])
+        elif r < 0.36 and d['labelnames']:
+            ops.append(['clear', 0, d['id']])
+        elif r < 0.42:
+            ops.append(['renew', 0, d['id']])
+        elif r < 0.46:
+            ops.append(['collect'])
+        elif r < 0.52:
+            ops.append(['get', 0, d['id'], lv, rng.choice(which[d['kind']])])
+        elif r < 0.8 and handles:
+            h = rng.randrange(len(handles))
+            hd = cat[handles[h]]
+            v = rng.choice(C8.EXACT if hd['kind'] == 'counter' else C8.GVALS)
+            if rng.random() < 0.15:
+                ops.append(['hget', 0, h, rng.choice(which[hd['kind']])])
+            else:
+                ops.append(_upd(hd, None, v, clock, via=h))
+        else:
+            ops.append(_upd(d, lv, v, clock))
+    return {'metrics': cat, 'ops': ops + [['collect']], 'snap': True, 'dup': True}
+
+
+def valid_dup(case):
+    made, handles = set(), set()
+    if not case['ops'] or case['ops'][0][0] != 'spawn':
+        return False
+    for op in case['ops'][1:]:
+        if op[0] in ('new', 'renew'):
+            made.add(op[2])
+        elif op[0] in H_OPS:
+            if op[2] not in handles:
+                return False
+        elif op[0] in ('collect', 'setpid'):
+            continue
+        elif op[0] in ('spawn', 'restart') or op[2] not in made:
+            return False
+        elif op[0] == 'keep':
+            handles.add(op[4])
+    return True
+
+
 def cases(ctx):
     rng = ctx.rng
+    for c in dup_slice(rng):
+        yield c
     for c in falsy_identity_slice():
         yield c
     for c in fork_late_slice():
@@ -208,6 +347,9 @@ def cases(ctx):
     while True:
         if rng.random() < (0.3 if ctx.thorough else 0.1):
             yield fork_case(rng)
+            continue
+        if rng.random() < 0.2:
+            yield dup_history(rng)
             continue
         cat, ops = base_history(rng, rng.randrange(5, 40), wild=rng.random() < 0.2)
         out = [ops[0]]
@@ -289,86 +431,117 @@ def value_params(d, lv):
     return out
 
 
-def translate(case):
-    """-> (initial pid, list of hops, for each metric-level op the number of model steps it expands to)"""
-    cat = {d['id']: d for d in case['metrics']}
-    hops, counts = [], []
-    idx = {}            # (metric id, lv tuple, role) -> index in the closure's value list
-    nvalues = 0
-    init = None
+H_OPS = {'hinc': 'inc', 'hdec': 'dec', 'hset': 'set', 'hobs': 'obs', 'hget': 'get'}
+UPDATES = ('inc', 'dec', 'set', 'settime', 'race', 'obs', 'hinc', 'hdec', 'hset', 'hobs')
 
-    def ensure(d, lv):
-        nonlocal nvalues
-        n = 0
-        if (d['id'], tuple(lv), 'made') in idx:
-            return 0
-        idx[(d['id'], tuple(lv), 'made')] = True
-        for role, (typ, mode, key) in value_params(d, lv):
-            idx[(d['id'], tuple(lv), role)] = nvalues
-            nvalues += 1
-            hops.append((Sym('new'), (typ, mode, L.sx_key(key))))
-            n += 1
-        return n
+
+def walk(case):
+    """The value-level actions every metric-level operation expands to, following WHICH value objects exist: a labels()
+    child that was removed/cleared and created again, or a metric declared again ('renew'), gets NEW value objects while
+    the old ones stay in the closure's list of live values (and may still be used through a handle taken with 'keep').
+    -> (initial pid, [actions of op 0, actions of op 1, ...]); an action is ('new', i, params) | ('inc', i, a) |
+    ('set', i, v, ts or None) | ('get', i) | ('setpid', p) | ('restart', p); i = index in the closure's value list"""
+    cat = {d['id']: d for d in case['metrics']}
+    cur = {}            # (metric id, lv tuple) -> {role: index}: the objects reached through metric.labels(*lv) / metric
+    held = {}           # handle -> (declaration, {role: index})
+    nvalues = [0]
+    init = None
+    out = []
     for op in case['ops']:
         op = C8.norm_op(op)
         kind = op[0]
-        n = 0
+        acts = []
+
+        def ensure(d, lv):
+            k = (d['id'], tuple(lv))
+            if k not in cur:
+                roles = {}
+                for role, (typ, mode, key) in value_params(d, lv):
+                    roles[role] = nvalues[0]
+                    nvalues[0] += 1
+                    acts.append(('new', roles[role], (typ, mode, key)))
+                cur[k] = roles
+            return cur[k]
+
+        def update(d, roles, kind, a):
+            if kind == 'get':
+                acts.append(('get', roles[a[0]]))
+            elif kind == 'race':
+                acts.append(('inc', roles[''], float(a[0])))
+                acts.append(('inc', roles[''], float(a[1])))
+            elif d['kind'] == 'counter':
+                acts.append(('inc', roles[''], float(a[0])))
+            elif d['kind'] == 'summary':
+                acts.append(('inc', roles['count'], 1.0))
+                acts.append(('inc', roles['sum'], float(a[0])))
+            elif d['kind'] == 'histogram':
+                acts.append(('inc', roles['sum'], float(a[0])))
+                for i, b in enumerate(C8.Oracle.bounds(d)):
+                    if a[0] <= b:
+                        acts.append(('inc', roles[i], 1.0))
+                        break
+            elif kind == 'set':
+                mr = d['mode'] in ('mostrecent', 'livemostrecent')
+                acts.append(('set', roles[''], float(a[0]), float(a[1]) if mr else None))
+            elif kind == 'inc':
+                acts.append(('inc', roles[''], float(a[0])))
+            elif kind == 'dec':
+                acts.append(('inc', roles[''], -float(a[0])))
         if kind == 'spawn':
             init = str(op[2])
         elif kind == 'restart':
-            hops.append((Sym('restart'), str(op[2])))
-            idx.clear()
-            nvalues = 0
-            n = 1
+            acts.append(('restart', str(op[2])))
+            cur.clear()
+            held.clear()
+            nvalues[0] = 0
         elif kind == 'setpid':
-            hops.append((Sym('setpid'), str(op[2])))
-            n = 1
+            acts.append(('setpid', str(op[2])))
         elif kind in ('collect', 'merge', 'dead'):
-            n = 0
+            pass
+        elif kind in H_OPS:
+            d, roles = held[op[2]]
+            update(d, roles, H_OPS[kind], op[3:])
         else:
             d = cat[op[2]]
-            if kind == 'new':
-                n = ensure(d, []) if not d['labelnames'] else 0
+            if kind in ('new', 'renew', 'clear'):
+                # a metric object declared (again): its value objects are created now when it has no labels, with its
+                # children otherwise; clear(): every child is forgotten by the metric (not by the closure)
+                for k in [k for k in cur if k[0] == d['id']]:
+                    if kind != 'clear' or d['labelnames']:
+                        del cur[k]
+                if kind != 'clear' and not d['labelnames']:
+                    ensure(d, [])
+            elif kind == 'remove':
+                cur.pop((d['id'], tuple(op[3])), None)
             else:
                 lv = op[3]
-                n = ensure(d, lv)
-                key = (d['id'], tuple(lv))
-                if kind == 'child':
-                    pass
-                elif kind == 'get':
-                    hops.append((Sym('get'), idx[key + (op[4],)]))
-                    n += 1
-                elif kind == 'race':
-                    hops.append((Sym('inc'), idx[key + ('',)], e_float(float(op[4]))))
-                    hops.append((Sym('inc'), idx[key + ('',)], e_float(float(op[5]))))
-                    n += 2
-                elif d['kind'] == 'counter':
-                    hops.append((Sym('inc'), idx[key + ('',)], e_float(float(op[4]))))
-                    n += 1
-                elif d['kind'] == 'summary':
-                    hops.append((Sym('inc'), idx[key + ('count',)], e_float(1.0)))
-                    hops.append((Sym('inc'), idx[key + ('sum',)], e_float(float(op[4]))))
-                    n += 2
-                elif d['kind'] == 'histogram':
-                    hops.append((Sym('inc'), idx[key + ('sum',)], e_float(float(op[4]))))
-                    n += 1
-                    for i, b in enumerate(C8.Oracle.bounds(d)):
-                        if op[4] <= b:
-                            hops.append((Sym('inc'), idx[key + (i,)], e_float(1.0)))
-                            n += 1
-                            break
-                elif kind == 'set':
-                    mr = d['mode'] in ('mostrecent', 'livemostrecent')
-                    hops.append((Sym('set'), idx[key + ('',)], e_float(float(op[4])),
-                                 some(e_float(float(op[5]))) if mr else None))
-                    n += 1
-                elif kind == 'inc':
-                    hops.append((Sym('inc'), idx[key + ('',)], e_float(float(op[4]))))
-                    n += 1
-                elif kind == 'dec':
-                    hops.append((Sym('inc'), idx[key + ('',)], e_float(-float(op[4]))))
-                    n += 1
-        counts.append(n)
+                roles = ensure(d, lv)
+                if kind == 'keep':
+                    held[op[4]] = (d, roles)
+                elif kind != 'child':
+                    update(d, roles, kind, op[4:])
+        out.append(acts)
+    return init, out
+
+
+def translate(case):
+    """-> (initial pid, list of hops, for each metric-level op the number of model steps it expands to)"""
+    init, steps = walk(case)
+    hops, counts = [], []
+    for acts in steps:
+        for a in acts:
+            if a[0] == 'new':
+                typ, mode, key = a[2]
+                hops.append((Sym('new'), (typ, mode, L.sx_key(key))))
+            elif a[0] == 'inc':
+                hops.append((Sym('inc'), a[1], e_float(a[2])))
+            elif a[0] == 'set':
+                hops.append((Sym('set'), a[1], e_float(a[2]), some(e_float(a[3])) if a[3] is not None else None))
+            elif a[0] == 'get':
+                hops.append((Sym('get'), a[1]))
+            else:
+                hops.append((Sym(a[0]), a[1]))
+        counts.append(len(acts))
     return init, hops, counts
 
 
@@ -471,11 +644,103 @@ def book(op, pid, cat, totals, per_pid):
                     break
 
 
+def own_files_only(i, op, pid, prev, snap):
+    """a step under identity pid writes no file of another identity (per file, from the store reader's snapshots)"""
+    for base, entries in prev.items():
+        if base not in snap:
+            return 'op %d %r: file %s disappeared' % (i, op, base)
+        if not base.endswith('_%s.db' % pid) and json.dumps(snap[base]) != json.dumps(entries):
+            return ('op %d %r ran under identity %s and changed %s, a file of another identity: %r -> %r'
+                    % (i, op, pid, base, entries, snap[base]))
+    for base in snap:
+        if base not in prev and not base.endswith('_%s.db' % pid):
+            return 'op %d %r ran under identity %s and created %s' % (i, op, pid, base)
+    return None
+
+
+def direct_dup(case, obs):
+    """Histories in which several live value objects describe one series (kept handles + remove/clear/re-declaration).
+    What the property states for them, per file: (1) a step under identity p changes no file of another identity;
+    (2) every value object created, and every update issued, under identity p has its cell in p's OWN file after the
+    step - whichever object it went through; (3) set(v) stores v (and the set-time for mostrecent gauges) there;
+    (4) an increment through an object whose cache is known to be current (created, re-bound by an identity change or
+    last written by itself, with no write through ANOTHER object of the series since) continues from what p's file held:
+    cell = previous cell + amount; get() through such an object returns that cell.  The total over objects whose cache
+    is stale is NOT demanded (two live objects of one series overwrite each other with or without identity changes:
+    the known remove/clear finding of C12); for those only (1)-(3) are checked."""
+    try:
+        _init, steps = walk(case)
+    except (KeyError, IndexError) as e:
+        return 'malformed duplicate-object history: %r' % (e,)
+    pid = cpid = None
+    prev = {}
+    params = {}         # value index -> (typ, mode, key)
+    synced = {}         # value index -> its cache is known to equal the cell of the current identity's file
+    for i, (op, o, acts) in enumerate(zip(case['ops'], obs, steps)):
+        if 'exc' in o:
+            return 'op %d %r raised %s: %s' % (i, op, o['exc'], o.get('msg'))
+        kind = op[0]
+        if kind == 'spawn':
+            pid = cpid = op[2]
+        elif kind == 'setpid':
+            pid = op[2]
+        snap = o['snap']
+        r = own_files_only(i, op, pid, prev, snap)
+        if r:
+            return r
+        before = {base: {L.decode_key(k): (v, ts) for k, v, ts in entries} for base, entries in prev.items()}
+        after = {base: {L.decode_key(k): (v, ts) for k, v, ts in entries} for base, entries in snap.items()}
+        prev = snap
+        vacts = [a for a in acts if a[0] in ('new', 'inc', 'set', 'get')]
+        if vacts and pid != cpid:
+            cpid = pid                      # the identity check re-binds EVERY live value object
+            for j in synced:
+                synced[j] = True
+        running = {}                        # cells written by earlier actions of this same operation
+        for a in vacts:
+            j = a[1]
+            if a[0] == 'new':
+                params[j] = a[2]
+                synced[j] = True
+            typ, mode, key = params[j]
+            base = base_of(typ, mode if typ == 'gauge' else '', str(pid))
+            cell = after.get(base, {}).get(key)
+            if cell is None:
+                return ('op %d %r ran under identity %s: the cell of %r is not in %s, the file of that identity (files now: %r)'
+                        % (i, op, pid, key[1:3], base, sorted(snap)))
+            old = running.get((base, key), before.get(base, {}).get(key, (0.0, 0.0)))
+            if a[0] == 'get':
+                if synced[j] and old is not None and not C8.close(L.canon(o['get']), L.canon(old[0])):
+                    return ('op %d %r under identity %s returned %r; %s holds %r for that series'
+                            % (i, op, pid, o['get'], base, old[0]))
+                continue
+            if a[0] == 'new':
+                continue
+            want = None
+            if a[0] == 'set':
+                want = (a[2], a[3] or 0.0)
+            elif synced[j] and old is not None:
+                want = (old[0] + a[2], 0.0)
+            running[(base, key)] = want
+            for j2, p2 in params.items():
+                if p2 == params[j]:
+                    synced[j2] = (j2 == j)
+        for (base, key), want in running.items():
+            got = after[base][key]
+            if want is not None and not (C8.close(L.canon(got[0]), L.canon(want[0])) and C8.close(L.canon(got[1]), L.canon(want[1]))):
+                return ('op %d %r ran under identity %s: %s holds %r for %r after the step; continuing from what that file held '
+                        '(%r) the update gives %r' % (i, op, pid, base, got, key[1:3],
+                                                      before.get(base, {}).get(key, (0.0, 0.0)), want))
+    return None
+
+
 def direct(case, obs):
     if isinstance(obs, dict):
         return 'the history could not be run: %s' % (obs.get('error'),)
     if case.get('fork'):
         return direct_fork(case, obs)
+    if case.get('dup'):
+        return direct_dup(case, obs)
     cat = {d['id']: d for d in case['metrics']}
     pid = None
     prev = {}
@@ -489,15 +754,9 @@ def direct(case, obs):
             pid = op[2]
         snap = o['snap']
         # 1. a step under identity p writes no file of another identity
-        for base, entries in prev.items():
-            if base not in snap:
-                return 'op %d %r: file %s disappeared' % (i, op, base)
-            if not base.endswith('_%s.db' % pid) and json.dumps(snap[base]) != json.dumps(entries):
-                return ('op %d %r ran under identity %s and changed %s, a file of another identity: %r -> %r'
-                        % (i, op, pid, base, entries, snap[base]))
-        for base in snap:
-            if base not in prev and not base.endswith('_%s.db' % pid):
-                return 'op %d %r ran under identity %s and created %s' % (i, op, pid, base)
+        r = own_files_only(i, op, pid, prev, snap)
+        if r:
+            return r
         prev = snap
         # 2. bookkeeping of what was issued (a race is two increments, set_to_current_time a set)
         subops = ([['inc'] + op[1:4] + [op[4]], ['inc'] + op[1:4] + [op[5]]] if kind == 'race' else [C8.norm_op(op)])
@@ -591,7 +850,7 @@ def nontrivial(case, obs):
             pid = op[2]
         elif op[0] == 'spawn':
             pid = op[2]
-        elif op[0] in ('new', 'child', 'inc', 'dec', 'set', 'settime', 'race', 'obs'):
+        elif op[0] in ('new', 'child', 'keep', 'renew') + UPDATES:
             touched = True
     pids = {b.rsplit('_', 1)[-1] for b in obs[-1].get('snap', {})}
     return changed and len(pids) >= 2
@@ -622,9 +881,12 @@ def classify(case, obs):
                     ks.append('change_between_updates')
             pid0 = op[2]
             seen.add(op[2])
-        elif op[0] in ('new', 'child'):
+        elif op[0] in ('new', 'child', 'keep', 'renew'):
             made.add((op[2], tuple(op[3]) if len(op) > 3 else ()))
-        elif op[0] in ('inc', 'dec', 'set', 'settime', 'race', 'obs'):
+        elif op[0] in H_OPS:
+            if op[0] != 'hget':
+                updated.add(('handle', op[2]))
+        elif op[0] in UPDATES:
             made.add((op[2], tuple(op[3])))
             updated.add((op[2], tuple(op[3])))
     if isinstance(obs, dict):
@@ -637,7 +899,52 @@ def classify(case, obs):
                 ks.append('race:second_thread_ran_meanwhile=%s' % o['second_thread_ran_during_rebind'])
     if any(not op[2] for op in ops if op[0] in ('spawn', 'setpid', 'restart')):
         ks.append('falsy_identity')
+    if case.get('dup'):
+        ks.extend(dup_classes(case))
     return sorted(set(ks))
+
+
+def dup_classes(case):
+    """which of the two-objects-for-one-series situations a history contains"""
+    ks = ['dup_case']
+    try:
+        _init, steps = walk(case)
+    except (KeyError, IndexError):
+        return ks + ['dup:malformed']
+    params = {}
+    last_writer = {}
+    pid = cpid = None
+    changed = set()         # series whose objects have been through an identity change while >= 2 were live
+    for op, acts in zip(case['ops'], steps):
+        if op[0] == 'spawn':
+            pid = cpid = op[2]
+        elif op[0] == 'setpid':
+            pid = op[2]
+        for a in acts:
+            if a[0] not in ('new', 'inc', 'set', 'get'):
+                continue
+            if pid != cpid:
+                cpid = pid
+                per = {}
+                for j, p in params.items():
+                    per.setdefault(p, []).append(j)
+                changed |= {p for p, js in per.items() if len(js) >= 2}
+            if a[0] == 'new':
+                params[a[1]] = a[2]
+                continue
+            p = params[a[1]]
+            live = sorted(j for j, p2 in params.items() if p2 == p)
+            if len(live) >= 2:
+                ks.append('dup:two_live_objects_of_one_series_used')
+                if p in changed and a[0] != 'get':
+                    ks.append('dup:%s_object_updated_after_identity_change' %
+                              ('newest' if a[1] == live[-1] else 'oldest' if a[1] == live[0] else 'middle'))
+                if a[0] != 'get' and last_writer.get(p, a[1]) != a[1]:
+                    ks.append('dup:write_through_object_with_stale_cache')
+            if a[0] != 'get':
+                last_writer[p] = a[1]
+    ks.extend('dup:via_' + op[0] for op in case['ops'] if op[0] in ('remove', 'clear', 'renew'))
+    return ks
 
 
 def shrinks(case):
@@ -650,7 +957,7 @@ def shrinks(case):
             continue
         for i in range(1, n, size):
             c = dict(case, ops=ops[:i] + ops[i + size:])
-            if len(c['ops']) > 1 and C8._valid(c):
+            if len(c['ops']) > 1 and (valid_dup(c) if case.get('dup') else C8._valid(c)):
                 yield c
 
 
